@@ -321,6 +321,10 @@ impl<'a> Interp<'a> {
         };
         let idx = (pid - 1) as usize;
         let kept = self.expected_kept(idx, &model_msgs);
+        // a batch above 2 MiB (one send, or several accumulated in the unsaved buffer): more than one file-layer write
+        if kept.iter().map(|j| model_msgs[*j].payload.len() as u64).sum::<u64>() > 2 * 1024 * 1024 || self.observe(pid).iter().any(|s| s.unsaved_bytes > 2 * 1024 * 1024) {
+            self.out.label("batch-over-2MiB");
+        }
         if kept.len() < model_msgs.len() {
             self.out.label("dedup-drop");
             let first_of_batch: HashSet<u128> = HashSet::new();
